@@ -89,7 +89,7 @@ type xchain struct {
 	forwarder  common.Address
 	pendingAdv int
 	proposals  []*govInfo
-	registry   map[string]map[string]bool // relayer address -> chain names it is registered for
+	registry   map[string]map[string]string // relayer address -> chain name -> the address registered for the relayer on that chain
 	tssName    string
 }
 
@@ -177,7 +177,7 @@ func newWorld(cfg map[string]int64, rec *kernel.Rec) (*world, error) {
 		if c.Halted != "" {
 			return nil, fmt.Errorf("genesis halted: %s", c.Halted)
 		}
-		xc := &xchain{Chain: c, idx: i, wrapped: map[string]*token{}, accepted: map[int]map[uint64]bool{}, registry: map[string]map[string]bool{}}
+		xc := &xchain{Chain: c, idx: i, wrapped: map[string]*token{}, accepted: map[int]map[uint64]bool{}, registry: map[string]map[string]string{}}
 		xc.native = &token{Origin: i, IsNative: true}
 		w.chains = append(w.chains, xc)
 	}
@@ -263,9 +263,9 @@ func newWorld(cfg map[string]int64, rec *kernel.Rec) (*world, error) {
 				addrs = append(addrs, r.Acc.String())
 			}
 			contents = append(contents, clienttypes.NewRegisterRelayerProposal("reg", "relayer", r.Acc.String(), chains, addrs))
-			set := map[string]bool{}
+			set := map[string]string{}
 			for _, n := range chains {
-				set[n] = true
+				set[n] = r.Acc.String()
 			}
 			c.registry[r.Acc.String()] = set
 		}
